@@ -175,6 +175,18 @@ StageOneDecidedOthersLocked ==
                    /\ \A b \in Corr \ {a} : /\ rs[b].decision = Nil /\ rs[b].lockedV = rs[a].decision /\ rs[b].lockedR = 0
                                              /\ rs[b].round = 1 /\ rs[b].prop = NoProp /\ rs[b].step = StPropose /\ inq[b] = << >>
 NoStageOneDecidedOthersLocked == ~StageOneDecidedOthersLocked
+\* corridors: state constraints that restrict TLC's breadth-first search to a sub-behaviour, so that TLC can be
+\* used as a planner (shortest behaviour to a stage / to a violation).  Used for attack synthesis only, never for
+\* a verdict: a corridor removes behaviours, so "no violation" inside one proves nothing.
+CorridorStage1 ==
+  /\ \A n \in Corr : rs[n].round <= 1
+  /\ (act.name = "Deliver" /\ act.m \in ByzMsgs) => (act.m \in ByzVotes /\ act.m.r = 0 /\ act.m.v \in CorrValues \cup {Nil})
+  /\ act.name = "Timeout" => act.k \in {"NewHeight", "PrecommitWait"}
+CorridorStage2 ==
+  /\ \A n \in Corr : rs[n].round <= 1
+  /\ (act.name = "Deliver" /\ act.m \in ByzVotes) => (act.m.v \in ByzValues /\ act.m.r = 1)
+  /\ (act.name = "Deliver" /\ act.m \in ByzProposals) => act.m.r = 1
+  /\ act.name # "Timeout"
 NoGoalSplitLockStale == ~GoalSplitLockStale
 NoGoalCommitWithoutBlock == ~GoalCommitWithoutBlock
 NoGoalOneDecidedOthersBehind == ~GoalOneDecidedOthersBehind
